@@ -69,6 +69,8 @@ def run(ck: Checker, prog: Program, tier: str):
     from . import c09
     with ck.borrow(c09, "C17.R1+"):
         ck.guard(c09._entry_effects, ck, prog, ("R1",))
+    from .common import check_identity_comparisons as _cic
+    ck.guard(_cic, ck, prog, "C17.R1", "C17")
 
 
 def _settings_delivery(ck: Checker, prog: Program):
